@@ -366,6 +366,26 @@ def adjustDate (a : DT) (tz : Option Int) : Except Err DT :=
     pure { v with tz := some z }
   | _, _ => .ok { a with tz := tz }
 
+/-! ### object identity: `adjust_datetime` works on a copy of its argument -/
+
+/-- `adjust_datetime` on a Python heap of date/time objects (`h[i]` is the argument object).
+`_item = copy(item)` allocates a new object (cell `h.length`); when both timezones are present
+`_item += …` rebinds `_item` to a further new object (the result of `__add__`); the final
+`_item.tzinfo = timezone` writes the object `_item` refers to.  Returns the new heap and the index of the
+result object.  The argument's cell is never written. -/
+def adjustObj (isDate : Bool) (h : List DT) (i : Nat) (tz : Option Int) : Except Err (List DT × Nat) :=
+  match h[i]? with
+  | none => .error .type
+  | some item =>
+    let h1 := h ++ [item]                       -- `_item = copy(item)`
+    match item.tz, tz with
+    | some _, some _ =>
+      -- `_item += …` (a new object), then its `tzinfo` is assigned: together `adjustDate(Time)`
+      match (if isDate then adjustDate item tz else adjustDateTime item tz) with
+      | .ok r => .ok (h1 ++ [r], h1.length)
+      | .error e => .error e
+    | _, _ => .ok (h1.set h.length { item with tz := tz }, h.length)   -- `_item.tzinfo = timezone` on the copy
+
 /-! ### lexical year numbering -/
 
 /-- `fromstring`: the year field (datetime.py:418-431).  XSD 1.0: `0000` is illegal, `-0001` is 1 BCE and
@@ -382,6 +402,12 @@ def isoYear (v11 : Bool) (y : Int) : Int :=
 
 /-- `fn:year-from-dateTime` / `fn:year-from-date` (_xpath2_functions.py:1264, 1309 with the XSD 1.1 fix) -/
 def yearFrom (v11 : Bool) (y : Int) : Int := if y < 0 ∧ v11 = true then y + 1 else y
+
+/-- the component-extraction functions `year/month/day/hours/minutes/seconds-from-dateTime`
+(_xpath2_functions.py:1252-1280): year (in the parser's XSD numbering), month, day, hours, minutes,
+seconds with fraction in µs -/
+def components (v11 : Bool) (v : DT) : List Int :=
+  [yearFrom v11 v.year, v.month, v.day, v.us / 3600000000, v.us / 60000000 % 60, v.us % 60000000]
 
 /-! ### durations -/
 
